@@ -6,6 +6,20 @@ CLAIMED = {
          "seeded simulation: real server tasks on simulated network; reference-model oracle", "4 C01"),
  "C02": ("same runs as C01; instrumented handlers journal every callback, compared with the reference model's expected calls and final point memory",
          "seeded simulation: handler-journal oracle against reference model", "4 C02"),
+ "C03": ("lock-step simulation of the real client task against a recording peer over the boundary lattice: exact MBAP encoding in one frame or rejection with zero bytes on the transport",
+         "seeded simulation: recording transport + reference encoder oracle", "4 C03"),
+ "C04": ("lock-step simulation: peer answers from the reply mutation grammar; completion compared with model::pdu::decode_reply",
+         "seeded simulation: reply-grammar fault injection by the peer; reference decoder oracle", "4 C04"),
+ "C10": ("exact lock-step comparison of the real client task with model::client over seeded action/fault sequences (replies, timeouts, I/O errors, enable/disable, shutdown, handle drop, task abort, clock jumps) in virtual time; exactly-once and result class per request",
+         "seeded simulation with fault injection; refinement against an executable reference model", "4 C10"),
+ "C11": ("same lock-step runs: wire frames and tx ids vs model; stale/duplicate/future/unsolicited frames never complete a request; 66 000-request wrap run",
+         "seeded simulation; reference-model refinement; stale/duplicate frame injection", "4 C11"),
+ "C12": ("same lock-step runs in exact virtual time: timeout instants, replies split across the deadline, N consecutive timeouts drop the connection",
+         "seeded discrete-event simulation in virtual time; reference-model refinement", "4 C12"),
+ "C13": ("same lock-step runs: listener sequence, connect attempts, fail-fast completions and task end equal model::client",
+         "seeded simulation with connection-fault injection; reference-model refinement", "4 C13"),
+ "C14": ("same lock-step runs: announced delays equal model::retry and the next attempt on the simulated network happens exactly that long after",
+         "seeded discrete-event simulation in virtual time; reference-model refinement", "4 C14"),
  "C05": ("metamorphic simulation: one MBAP stream under canonical vs. arbitrary chunking (cuts in header/body, 260-byte buffer fill, delays, commands mid-frame) on two identical real servers; plus invalid-header closure",
          "seeded simulation with read-chunking fault injection; metamorphic + model oracle", "4 C05"),
 }
